@@ -84,7 +84,7 @@ func singleBoolParam(fn *ssa.Function) (int, *ssa.Parameter) {
 
 func ruleFurtherEvalSticky(e *Engine, r *Reporter) {
 	r.Rule("further-eval-flag-sticky", "in the classic reverse expansion the 'an intersection or exclusion lies on the path' flag is only ever raised along a path: every call that hands the flag on passes a value that depends on the caller's own flag (flag || edge flag), so a candidate found below an intersection/exclusion is always marked RequiresFurtherEval and confirmed by Check", 6)
-	tsc := e.Func("pkg/server/commands/reverseexpand", "ReverseExpandQuery.trySendCandidate")
+	tsc := e.candidateGate()
 	role := map[*ssa.Function]int{}
 	if i, _ := singleBoolParam(tsc); i >= 0 {
 		role[tsc] = i
@@ -171,7 +171,7 @@ func ruleFurtherEvalSticky(e *Engine, r *Reporter) {
 	})
 	r.Check(statusOK, fname(tsc)+" | flag => RequiresFurtherEvalStatus", e.pos(tsc.Pos()), "status derives from the flag", "the candidate status no longer derives from the further-evaluation flag")
 	// who constructs ListObjectsResult
-	okOwner := true
+	producers := map[string]bool{}
 	var where string
 	for _, p := range e.modulePackages(false) {
 		for _, f := range p.Syntax {
@@ -191,15 +191,13 @@ func ruleFurtherEvalSticky(e *Engine, r *Reporter) {
 				if !hasObj {
 					return
 				}
-				fd := funcDeclName(e.enclosingFuncDecl(p, lit.node.Pos()))
-				if fd != "trySendObject" {
-					okOwner = false
-					where = short(p.PkgPath) + "." + fd
-				}
+				fd := short(p.PkgPath) + "." + funcDeclName(e.enclosingFuncDecl(p, lit.node.Pos()))
+				producers[fd] = true
+				where = fd
 			})
 		}
 	}
-	r.Check(okOwner, "ListObjectsResult{ObjectID} built only in trySendObject", "", "single counted gate", "an object result is produced outside trySendObject ("+where+"): it bypasses the result-limit counting")
+	r.Check(len(producers) == 1, "ListObjectsResult{ObjectID} has a single producer", "", "single counted gate: "+where, fmt.Sprintf("object results are produced in %d places %v: a producer beside the counting gate bypasses the result-limit counting", len(producers), keysOf(producers)))
 }
 
 // ruleObjectsConfirmedByCheck: in ListObjectsQuery.evaluate a candidate that requires further
@@ -207,10 +205,7 @@ func ruleFurtherEvalSticky(e *Engine, r *Reporter) {
 func ruleObjectsConfirmedByCheck(e *Engine, r *Reporter) {
 	r.Rule("further-eval-confirmed-by-check", "ListObjectsQuery.evaluate sends a candidate that requires further evaluation only when CheckCommand.Execute for that candidate returned Allowed, and that Check carries the request's relation, user, contextual tuples, context and consistency", 3)
 	ev := e.Func("pkg/server/commands", "ListObjectsQuery.evaluate")
-	tso := e.FuncOpt("pkg/server/commands", "trySendObject")
-	if tso == nil {
-		blind("further-eval-confirmed: trySendObject not found")
-	}
+	tso := e.objectGate()
 	n := 0
 	for _, g := range withClosures(ev) {
 		for _, b := range g.Blocks {
@@ -265,4 +260,60 @@ func ruleObjectsConfirmedByCheck(e *Engine, r *Reporter) {
 		}
 	})
 	r.Check(okParams, fname(ev)+" | confirming Check carries the request's inputs", e.pos(ev.Pos()), "relation, user, contextual tuples, context, consistency, store", "the confirming Check is not built from all of the request's inputs: "+detail)
+}
+
+
+// candidateGate: the reverse-expansion function that stamps a candidate's ResultStatus and sends it (found by role).
+func (e *Engine) candidateGate() *ssa.Function {
+	var found []*ssa.Function
+	for _, fn := range e.Fns {
+		if short(pkgOf(fn)) != "pkg/server/commands/reverseexpand" || fn.Parent() != nil {
+			continue
+		}
+		stamps, sends := false, false
+		eachInstr(fn, false, func(in ssa.Instruction) {
+			if st, ok := in.(*ssa.Store); ok {
+				if fa, ok := st.Addr.(*ssa.FieldAddr); ok && fieldName(fa.X.Type(), fa.Field) == "ResultStatus" {
+					stamps = true
+				}
+			}
+			if c, ok := in.(ssa.CallInstruction); ok {
+				if o := calleeObj(c); o != nil && o.Name() == "TrySendThroughChannel" {
+					sends = true
+				}
+			}
+		})
+		if i, _ := singleBoolParam(fn); stamps && sends && i >= 0 {
+			found = append(found, fn)
+		}
+	}
+	if len(found) != 1 {
+		blind("candidate gate: expected one function stamping ResultStatus and sending the candidate, found %d", len(found))
+	}
+	return found[0]
+}
+
+// objectGate: the function that builds ListObjectsResult{ObjectID: …} (found by role).
+func (e *Engine) objectGate() *ssa.Function {
+	var found []*ssa.Function
+	for _, fn := range e.Fns {
+		if short(pkgOf(fn)) != "pkg/server/commands" {
+			continue
+		}
+		builds := false
+		eachInstr(fn, false, func(in ssa.Instruction) {
+			if st, ok := in.(*ssa.Store); ok {
+				if fa, ok := st.Addr.(*ssa.FieldAddr); ok && fieldName(fa.X.Type(), fa.Field) == "ObjectID" && typeBaseName(derefType(fa.X.Type())) == "ListObjectsResult" {
+					builds = true
+				}
+			}
+		})
+		if builds {
+			found = append(found, topLevel(fn))
+		}
+	}
+	if len(found) == 0 {
+		blind("object gate: no function builds ListObjectsResult{ObjectID}")
+	}
+	return found[0]
 }
